@@ -117,7 +117,12 @@ fn check_cmd(args: &[String]) -> i32 {
           "baselines/w1_supported.txt (derived from the pinned tree) lists the combinations that must keep being accepted".into(),
           "heap addresses are not controlled, only kept out of observations (structural snapshots)".into(),
         ],
-        expected_reach: vec![],
+        expected_reach: if c04 {
+          vec!["fault:f2-undefined-target", "fault:f3-immutable-target", "fault:f4-arith", "fault:f4-source-fails", "fault:f5-index-oob", "fault:f6-source-kind", "reach:op:idx-assign", "reach:op:idx-op-assign", "reach:op:op-assign", "reach:op:read"].into_iter().map(String::from).collect()
+        } else {
+          vec!["fault:f1-redefine", "fault:f2-undefined-target", "fault:f3-immutable-target", "fault:f4-source-fails", "fault:f4-arith", "fault:f5-index-oob", "fault:f5-tuple-index-oob", "fault:f6-source-kind", "fault:f6-no-such-field", "fault:f7-annotation", "fault:f8-name-collision", "fault:f8-too-many-names", "fault:f8-not-a-tuple",
+               "reach:op:define", "reach:op:mdefine", "reach:op:assign", "reach:op:idx-assign", "reach:op:op-assign", "reach:op:field-assign", "reach:op:tuple-assign", "reach:op:destructure", "reach:op:read"].into_iter().map(String::from).collect()
+        },
         exhaustive: false,
         extra: json!({}),
       }
